@@ -31,6 +31,16 @@ check("C01", "exploration",
       "Trusted: serde_json, the harness' reference model (written from the property statements), the test service implementation. A closed connection is never itself a violation (the statement permits it). Socket hangs are reported as inconclusive (exit 2), never as violations.",
       "bounded-exhaustive enumeration + proptest sequences vs. reference model (model-based testing)", "DESIGN.md §4 C01")
 
+check("C02", "exploration",
+      "Metamorphic testing of handle(): for every stream of 1-2 messages over the extended alphabet (incl. 8 KiB-boundary messages, upgrade + payload, incomplete trailing message) every single cut point (exhaustive for streams <= 2 KiB), every pair of cuts (<= 160 B), byte-at-a-time, and proptest random k-cuts on longer streams; reply bytes, error position, returned tail and the bytes seen by a recording upgraded handler must equal those of the unsegmented run / of the bytes themselves. The same streams are sent through a unix socket served by listen() with the cut list as write schedule (0-3 ms pauses) and compared byte-for-byte with the in-memory run of the same service instance.",
+      "Trusted: the harness' re-feeding loop (tail ++ unread reader bytes, as documented), serde_json. Socket schedules are sampled, not enumerated.",
+      "metamorphic relation (segmented vs whole) with bounded-exhaustive cut enumeration + proptest", "DESIGN.md §4 C02")
+
+check("C04", "exploration",
+      "All sequences (len <= 2 quick / 3 thorough) containing a oneway request at every depth through handle(), random longer ones through handle() and listen(); two oracles: the reference model (no reply attributable to a oneway request, later replies aligned by token) and a metamorphic twin (reply bytes equal those of the stream with the oneway requests removed). Client side: all (oneway kind, following call kind) pairs and random {call, oneway, more} histories on one connection against the real server: oneway() returns Ok, leaves the connection slots, the next call gets its own token.",
+      "Trusted: reference model, serde_json. Closing the connection in answer to a oneway request is allowed.",
+      "model-based + metamorphic (remove-oneway twin) testing; stateful client histories via proptest", "DESIGN.md §4 C04")
+
 ALL = ["C%02d" % i for i in range(1, 21)]
 
 NOT_BUILT_REASON = "check not built yet in this round (design in DESIGN.md §4); not claimed until it exists and is validated"
